@@ -21,6 +21,7 @@ import (
 	"compress/gzip"
 	"encoding/base64"
 	"encoding/json"
+	"errors"
 	"io"
 
 	rspb "helm.sh/helm/v4/pkg/release/v1"
@@ -82,6 +83,11 @@ func decodeRelease(data string) (*rspb.Release, error) {
 	// unmarshal release object bytes
 	if err := json.Unmarshal(b, &rls); err != nil {
 		return nil, err
+	}
+	// A record that decodes to a release without info (e.g. the JSON value
+	// null) is not a release: every consumer dereferences Info.
+	if rls.Info == nil {
+		return nil, errors.New("release record has no info")
 	}
 	return &rls, nil
 }
